@@ -182,9 +182,11 @@ def probe_dumper(hi, d):
     bnd = ("history: every single get_loader/get_dumper of the " + ("22-type confusable sub-pool" if quick else "43-type pool") +
            ", a failing load, and 5 two-step histories; probe = " + probe + "; datum: atom None|bool|int in [-1,5]|str symbolic in wrappers " +
            repr(kinds) + "; strict and lax")
-    m.ob(f"hist_loader_{probe}", "hi: int, kind: int, d: Atom", "return probe_loader(hi, kind, d)",
-         pre=["0 <= hi < NH", f"kind in {kinds!r}", "not isinstance(d, str) or d in ('', 'a', '1')", "not isinstance(d, int) or -1 <= d <= 5"],
-         timeout=tmo, family="history independence: warmed retort vs fresh retort on a symbolic datum", bounds=bnd)
+    groups = [kinds] if quick else [kinds[0:4], kinds[4:8], kinds[8:]]          # thorough: three slices of wrappers so that every path tree is exhausted
+    for gi, kg in enumerate(groups):
+        m.ob(f"hist_loader_{probe}" + ("" if quick else f"_w{gi}"), "hi: int, kind: int, d: Atom", "return probe_loader(hi, kind, d)",
+             pre=["0 <= hi < NH", f"kind in {tuple(kg)!r}", "not isinstance(d, str) or d in ('', 'a', '1')", "not isinstance(d, int) or -1 <= d <= 5"],
+             timeout=tmo, family="history independence: warmed retort vs fresh retort on a symbolic datum", bounds=bnd + ("" if quick else f"; wrapper slice {tuple(kg)!r}"))
     m.ob(f"hist_dumper_{probe}", "hi: int, d: Union[bool, int]", "return probe_dumper(hi, d)",
          pre=["0 <= hi < NH", "not isinstance(d, int) or -1 <= d <= 5"],
          timeout=tmo, family="history independence: warmed vs fresh dumper", bounds=bnd)
